@@ -1,5 +1,6 @@
 import MidnightZK.Model.Common
 import MidnightZK.Model.C07.Poseidon
+import MidnightZK.Model.C07.PoseidonVarlen
 import MidnightZK.Gen.C07Poseidon
 import MidnightZK.Model.C07.Sha2
 import MidnightZK.Gen.C07Sha
@@ -7,6 +8,7 @@ import MidnightZK.Model.C07.ShaVarlen
 import MidnightZK.Model.C07.ShaChip
 import MidnightZK.Model.C07.Sha512Chip
 import MidnightZK.Gen.C07ShaGates
+import MidnightZK.Gen.C07Sha512Gates
 /-! Line-protocol handler of property C07. -/
 namespace MidnightZK.C07.Driver
 open MidnightZK MidnightZK.C07
@@ -137,25 +139,41 @@ def parsePairs? (s : String) : Option (List (String × Nat)) :=
     | [n, v] => (parseNat? v).map (fun v => (n, v))
     | _ => none)
 
-/-- `sha256sat n k cells sources`: does the given (real, honest) witness satisfy `Sat` of region `k`? -/
-def shaSat (n k : Nat) (cells srcs : String) : String :=
-  let regs := match n with
-    | 1 => shaRegions1 | 2 => shaRegions2 | 3 => shaRegions3 | _ => #[]
-  match regs[k]?, parsePairs? cells, parsePairs? srcs with
+/-- Does the given (real, honest) witness satisfy `Sat` of region `k` (`cells` = the advice cells of the
+region, `srcs` = the sources of its copy constraints)? Shared by `sha256sat` and `sha512sat`. -/
+def satCheck (modulus : Nat) (gates : Chip.Sel → List Chip.Expr) (advCols : List Nat) (reg : Option Chip.Region)
+    (k : Nat) (cells srcs : String) : String :=
+  match reg, parsePairs? cells, parsePairs? srcs with
   | some r, some cs, some ss =>
     let find (l : List (String × Nat)) (key : String) : Nat := ((l.find? (fun kv => kv.1 == key)).map (·.2)).getD 0
     let a : Chip.Asg := fun s =>
       match s with
       | .reg k' off col =>
-        if k' = k then find cs s!"{off}.{Gen.shaAdvCols.getD col 99}" else find ss (Chip.Src.render Gen.shaAdvCols s)
+        if k' = k then find cs s!"{off}.{advCols.getD col 99}" else find ss (Chip.Src.render advCols s)
       | .const v => v
       | .ext i => find ss s!"X{i}"
     -- every listed cell must be a canonical field element
-    if (cs ++ ss).any (fun kv => kv.2 ≥ Gen.shaModulus) then "fail:non-canonical" else
-    match Chip.satFailures Gen.shaModulus Gen.shaGates a k r with
-    | [] => if Chip.satB Gen.shaModulus Gen.shaGates a k r then "ok" else "fail:satB"
+    if (cs ++ ss).any (fun kv => kv.2 ≥ modulus) then "fail:non-canonical" else
+    match Chip.satFailures modulus gates a k r with
+    | [] => if Chip.satB modulus gates a k r then "ok" else "fail:satB"
     | fs => "fail:" ++ ",".intercalate fs
   | _, _, _ => "bad-op"
+
+/-- `sha256sat n k cells sources`. -/
+def shaSat (n k : Nat) (cells srcs : String) : String :=
+  let regs := match n with
+    | 1 => shaRegions1 | 2 => shaRegions2 | 3 => shaRegions3 | _ => #[]
+  satCheck Gen.shaModulus Gen.shaGates Gen.shaAdvCols regs[k]? k cells srcs
+
+/-- Raw regions of the SHA-512 emitter (for the honest-witness check). -/
+def sha512Regions1 : Array Chip.Region := (Chip512.emit Gen.sha512K Gen.sha512IV 1).1.toArray
+def sha512Regions2 : Array Chip.Region := (Chip512.emit Gen.sha512K Gen.sha512IV 2).1.toArray
+
+/-- `sha512sat n k cells sources`. -/
+def sha512Sat (n k : Nat) (cells srcs : String) : String :=
+  let regs := match n with
+    | 1 => sha512Regions1 | 2 => sha512Regions2 | _ => #[]
+  satCheck Gen.sha512Modulus Gen.sha512Gates Gen.sha512AdvCols regs[k]? k cells srcs
 
 /-- The SHA-512 chip regions of a message of `n` blocks, rendered. -/
 def sha512Trace (n : Nat) : Array String × String :=
@@ -189,6 +207,10 @@ def answer (line : String) : String :=
   | ["sha256sat", n, k, cells, srcs] =>
     match n.toNat?, k.toNat? with
     | some n, some k => shaSat n k cells srcs
+    | _, _ => "bad-op"
+  | ["sha512sat", n, k, cells, srcs] =>
+    match n.toNat?, k.toNat? with
+    | some n, some k => sha512Sat n k cells srcs
     | _, _ => "bad-op"
   | ["sha512shape", n] =>
     match n.toNat?.bind sha512TraceOf with
@@ -228,6 +250,11 @@ def answer (line : String) : String :=
     | some m, some n, some b =>
       if b.length ≠ m ∨ m % 64 ≠ 0 ∨ m = 0 ∨ n > m then "bad-op" else fmtBytes (sha256Varlen sha256 m b n)
     | _, _, _ => "bad-op"
+  | ["sha256buffer", maxLen, filler, d] =>
+    match maxLen.toNat?, parseBytes? filler, parseBytes? d with
+    | some m, some [f], some b =>
+      if m % 64 ≠ 0 ∨ m = 0 ∨ b.length > m then "bad-op" else fmtBytes (byteBuffer m b f)
+    | _, _, _ => "bad-op"
   | ["pad256", m] => match parseBytes? m with
     | some b => fmtBytes (sha256.padRust b)
     | none => "bad-op"
@@ -253,7 +280,7 @@ def answer (line : String) : String :=
     match maxLen.toNat?, len.toNat?, parseNatList? buffer with
     | some m, some n, some b =>
       if b.length ≠ m ∨ m % params.rate ≠ 0 ∨ n > m then "bad-op"
-      else toHex (varlen params fq permCircuit m (fqList b) n).val
+      else toHex (varlenLoop params fq permCircuit m (fqList b) n).val
     | _, _, _ => "bad-op"
   | ["buffer", maxLen, align, filler, data] =>
     match maxLen.toNat?, align.toNat?, parseNat? filler, parseNatList? data with
